@@ -155,6 +155,7 @@ class Interp:
         self.max_leaves = max_leaves
         self.max_steps = max_steps
         self.stats = {'steps': 0, 'forks': 0, 'instances': set()}
+        self.domain_hook = None
 
     # ------------------------------------------------------------------ symbolic inputs
     def build_sym(self, st, ty, name, heapname=None, opts=None):
@@ -162,7 +163,8 @@ class Interp:
         opts = opts or {}
         k = ty['k']
         if k == 'int':
-            return mk_lin(ty['bits'], 0, {('in', name, ty['bits'], None): 1})
+            dom = self.domain_hook(name) if self.domain_hook else None
+            return mk_lin(ty['bits'], 0, {('in', name, ty['bits'], dom): 1})
         if k == 'bool':
             return mk_lin(1, 0, {('in', name, 1, None): 1})
         if k == 'unit':
@@ -358,6 +360,15 @@ class Interp:
         for l, c in tb.items():
             d[l] = d.get(l, 0) - c
         return mk_lin(width(a), ca - cb, d)
+
+    def diff_interval(self, st, a, b):
+        """Interval of the exact integer a - b."""
+        ca, ta = lin_of(a)
+        cb, tb = lin_of(b)
+        d = dict(ta)
+        for l, c in tb.items():
+            d[l] = d.get(l, 0) - c
+        return st.know.interval(ca - cb, d)
 
     def need(self, st, atom_term, want=True):
         """Decide a boolean term under the path facts; fork when undecided. Returns bool."""
@@ -622,6 +633,10 @@ class Interp:
                 if width(t) == w:
                     return t
                 return cast_bits(t, w, False)
+            if v[0] == 'uninit':
+                # MIR reads discriminants of never-initialised residual locals in dead code
+                leaf = ('opq', w, 'uninit', (fr.key, r['place']['local']))
+                return mk_bv(w, tuple((leaf, i) for i in range(w)))
             raise Unsupported('discriminant of %s' % v[0])
         if k == 'aggregate':
             ops = tuple(self.operand(st, fr, o) for o in r['ops'])
@@ -808,7 +823,7 @@ class Interp:
             if not is_const(cond):
                 c0, t0 = lin_of(ln)
                 lo, hi = st.know.interval(c0, t0)
-                if hi - (pos[2] if is_const(pos) else 0) > 64:
+                if not is_const(pos) or (pos[2] >= 64 and hi - pos[2] > 64):
                     raise Unsupported('loop over a slice whose symbolic length is not bounded (%s in [%d, %d])' % (show_term(ln), lo, hi))
             if self.need(st, cond):
                 eref = ('ref', (sl[1][0], sl[1][1] + (('i', self.add(sl[2], pos)),)))
@@ -878,12 +893,8 @@ class Interp:
             keep = []
             for (lo, n, content) in obj[2]:
                 # disjoint if lo+n <= view.lo or lo >= view.hi
-                a = self.sub(self.add(lo, n), sl[2])
-                c0, t0 = lin_of(a)
-                alo, ahi = kn.interval(c0, t0)
-                b = self.sub(lo, sl[3])
-                c1, t1 = lin_of(b)
-                blo, bhi = kn.interval(c1, t1)
+                alo, ahi = self.diff_interval(st, self.add(lo, n), sl[2])
+                blo, bhi = self.diff_interval(st, lo, sl[3])
                 if ahi <= 0 or blo >= 0:
                     continue
                 keep.append((lo, n, content))
